@@ -331,7 +331,13 @@ def run_unary(prop, tier, seed, replay):
         if not replay:
             if prop == "C02":
                 models.append(engine.t1_model(work, tier))
-            if prop in ("C02", "C03", "C05", "C06", "C10", "C11", "C12", "C14"):
+            if prop == "C14":
+                models.append(engine.cyclebreak_model(work, tier))
+            if prop == "C10":
+                models.append(engine.netsimplex_model(work, tier))
+            if prop in ("C04", "C16"):
+                models.append(engine.position_model(work, tier))
+            if prop in ("C02", "C03", "C04", "C05", "C06", "C10", "C11", "C12", "C14", "C16"):
                 pd = engine.pipeline_diag(work, driver, cs, limit=400 if tier == "quick" else 4000)
                 if pd:
                     models.append(pd)
